@@ -253,9 +253,31 @@ const c19TickDur = 25 * time.Minute
 
 var c19Base = time.Date(2024, 5, 1, 8, 0, 0, 0, time.UTC)
 
-func c19Eid(e string) string { return "https://sp-" + e + ".example.com/saml/metadata" }
-func c19Acs(e string) string { return "https://sp-" + e + ".example.com/saml/acs" }
+// An issuer class "n:<service name>" is a request that names a service NAME where the entity ID
+// belongs; it asks for e1's endpoint, so that a registry that resolved it to e1's metadata would answer.
+func c19Eid(e string) string {
+	if n, ok := strings.CutPrefix(e, "n:"); ok {
+		return n
+	}
+	return "https://sp-" + e + ".example.com/saml/metadata"
+}
+func c19Acs(e string) string {
+	if strings.HasPrefix(e, "n:") {
+		e = "e1"
+	}
+	return "https://sp-" + e + ".example.com/saml/acs"
+}
+// c19Long is longer than the 72 bytes bcrypt can hash; c19Pw("L2") agrees with it on exactly
+// those 72 bytes and differs afterwards, so it must never authenticate anybody.
+const c19Long = "long-passphrase-0123456789-abcdefghijklmnopqrstuvwxyz-ABCDEFGHIJKLMNOPQRSTUVWXYZ-tail-of-the-real-one"
+
 func c19Pw(p string) string {
+	switch p {
+	case "L":
+		return c19Long
+	case "L2":
+		return c19Long[:72] + "-another-tail-entirely"
+	}
 	return map[string]string{"p1": "correct-horse-1", "p2": "battery-staple-2", "e": ""}[p]
 }
 func c19Email(u string, v int) string { return fmt.Sprintf("%s.v%d@example.com", u, v) }
@@ -879,11 +901,10 @@ func TestC19(t *testing.T) {
 					snapMu.Unlock()
 				}
 				// single store faults on the transitions that authenticate or issue assertions
-				sweep := map[string]bool{"Login": true, "SSO": true, "SSOLogin": true, "Shortcut": true, "LoginCookie": true}
-				if thorough() {
-					for _, x := range []string{"PutUser", "GetUser", "PutService", "DeleteService"} {
-						sweep[x] = true
-					}
+				sweep := map[string]bool{"Login": true, "SSO": true, "SSOLogin": true, "Shortcut": true, "LoginCookie": true,
+					"PutService": true, "DeleteService": true, "GetUser": true}
+				if thorough() || ed.Act.Pw == "keep" {
+					sweep["PutUser"] = true
 				}
 				// bcrypt-bound transitions are swept from a third of the states
 				if (ed.Act.N == "Login" || ed.Act.N == "SSOLogin") && hashKey(fk)[0]%3 != 0 {
@@ -906,6 +927,18 @@ func TestC19(t *testing.T) {
 								rep.Violation(fkey, why+fmt.Sprintf(" (store operation %d of the request failed with %s)", at, kind),
 									map[string]any{"edge": ed, "fault_at": at, "fault_kind": kind, "store_ops": fenv.store.log, "real_reply": fr.Reply})
 								continue
+							}
+							// a request that failed half-way must not leave the running server out of step with its store
+							if ed.Act.N == "PutService" || ed.Act.N == "DeleteService" {
+								ffresh, ferr := newIdpSrv(newMapStore(fenv.store.clone()))
+								if ferr == nil {
+									lp, fp := c19Registered(fenv.srv, fenv.now, eids), c19Registered(ffresh, fenv.now, eids)
+									if fmt.Sprint(lp) != fmt.Sprint(fp) {
+										rep.Violation(fkey+":restart", fmt.Sprintf("after store operation %d of the request failed (%s), the running server answers for %v while a server re-created over the same store answers for %v", at, kind, lp, fp),
+											map[string]any{"edge": ed, "fault_at": at, "fault_kind": kind, "store_ops": fenv.store.log, "real_reply": fr.Reply})
+										continue
+									}
+								}
 							}
 							fpost := fenv.abstract(usersDom, svcDom, scDom, nslots)
 							fpost.Registry = ed.From.Registry
@@ -1009,7 +1042,7 @@ func TestC19Random(t *testing.T) {
 	defer func() { saml.TimeNow, saml.RandReader = oldNow, oldRand }()
 	saml.TimeNow = goroutineNow
 	saml.RandReader = &safeRand{r: newRand("c19random-rand")}
-	users, svcs, eids, pws := []string{"u1", "u2"}, []string{"s1", "s2"}, []string{"e1", "e2"}, []string{"p1", "e"}
+	users, svcs, eids, pws := []string{"u1", "u2"}, []string{"s1", "s2"}, []string{"e1", "e2"}, []string{"p1", "e", "p1", "e", "L2"}
 	const maxSess = 2
 	type line struct {
 		A map[string]any `json:"a"`
@@ -1029,7 +1062,7 @@ func TestC19Random(t *testing.T) {
 			var a c19Act
 			switch rng.Intn(17) {
 			case 0, 1:
-				a = c19Act{N: "PutUser", U: pick(users), Pw: []string{"keep", "p1", "e"}[rng.Intn(3)], Ver: 1 + rng.Intn(2)}
+				a = c19Act{N: "PutUser", U: pick(users), Pw: []string{"keep", "p1", "e", "p1", "e", "L"}[rng.Intn(6)], Ver: 1 + rng.Intn(2)}
 			case 2:
 				a = c19Act{N: "DeleteUser", U: pick(users)}
 			case 3:
@@ -1130,7 +1163,9 @@ func TestC19Random(t *testing.T) {
 			// keep the driver's notion of the reference state
 			switch a.N {
 			case "PutUser":
-				if a.Pw != "keep" {
+				if a.Pw == "L" {
+					// refused by the reference model: nothing changes
+				} else if a.Pw != "keep" {
 					pwOf[a.U] = a.Pw
 				} else if _, ok := pwOf[a.U]; !ok {
 					pwOf[a.U] = "none"
